@@ -221,6 +221,8 @@ def main(pid):
         "(randrange within its documented range, shuffle = a symbolic permutation), symbolic items/priorities, operation strings of <= 8 put/get",
         "retry lemma (E1, xh/harness_retry.py; C10 only): create_retry(n) with symbolic n <= 4 and a callable failing on its first j <= 5 attempts; "
         "uberjob.run(retry=n) on a stored chain where one operation kind (call / read / write / get_modified_time) fails on its first j attempts; sequential engine",
+        "CallError glue (E1, xh/harness_err.py; C06 only): run on 3-call plans with symbolic failing calls / exception kind / output / failing store operation: "
+        "CallError.call and __cause__ identities, nothing downstream started; sequential engine",
         "cycle lemma (E1, xh/harness_topo.py; C07 only): the real topological_sort / assert_acyclic on symbolic digraphs (N<=4, self loops, parallel edges) "
         "vs the harness' transitive closure; uberjob.run on 3-call plans with symbolic dependency edges in any direction, with / without a registry",
         "pruning lemma (E1, xh/harness_prune.py; C01/C04 only): plans of 4-5 nodes (calls / literals by the condition's kind string) with symbolic edges and "
@@ -256,6 +258,11 @@ def lemma_conditions(pid, tier):
             cs.append(xhrun.Cond("harness_queue", "c04_queue", {"XH_Q": kind, "XH_NINIT": ninit, "XH_OPS": ops}, timeout=300,
                                  label=f"queue_contract_{kind}_init{ninit}_{ops}"))
     cs.append(xhrun.Cond("harness_queue", "c04_create_queue", {}, timeout=300, label="queue_contract_create_queue"))
+    if pid == "C06":
+        # the glue above the engine: process -> NodeError -> run -> CallError (call identity, cause identity, nothing downstream)
+        for sh in (("chain3", "join3") if tier == "quick" else ("chain3", "fork3", "join3", "indep3")):
+            for r in (0, 1):
+                cs.append(xhrun.Cond("harness_err", "c06_error", {"XH_ESHAPE": sh, "XH_EREG": r}, timeout=600, label=f"callerror_{sh}_reg{r}"))
     if pid == "C10":
         # retry: the real create_retry / _coerce_retry, and retry inside a run (calls, store read / write, modified-time query)
         cs.append(xhrun.Cond("harness_retry", "c10_retry", {}, timeout=600, label="retry_wrapper"))
